@@ -6,7 +6,7 @@ from typing import Callable, Dict, Iterable, Iterator, List, Optional, Set, Tupl
 
 from ..core import Ctx
 from ..flow import AV, CallSite, Flow, Program
-from ..model import (IMMUTABLE_TYPES, AnalysisError, FuncInfo, Model, Ty, dotted, norm, walk_no_nested)
+from ..model import (IMMUTABLE_TYPES, AnalysisError, FuncInfo, Model, Ty, canon, dotted, norm, walk_no_nested)
 
 
 def prog(ctx: Ctx) -> Program:
@@ -152,7 +152,7 @@ def check_params_stable(ctx: Ctx, rule: str = "R-PARAMS"):
                 txt = norm(st)
                 if isinstance(st, (ast.For, ast.With)):
                     txt = norm(st)[:80]
-                if txt in PARAM_REBIND_OK.get((qn, prm), ()):
+                if isinstance(st, (ast.Assign, ast.AnnAssign, ast.AugAssign)) and canon(st) in {canon(x) for x in PARAM_REBIND_OK.get((qn, prm), ())}:
                     ctx.ok(rule, f, st, f"listed idiom: parameter `{prm}` is given its default / normalised form", key=f"{prm}")
                 else:
                     ctx.undecided(rule, f, st, f"parameter `{prm}` is rebound by `{txt[:100]}`: the rules of this property read `{prm}` as the caller's value; "
